@@ -53,6 +53,7 @@ static int       Grcompr    = 0;    /* compression scheme to use */
 static comp_info Grcinfo;           /* Compression information for each
                                         scheme */
 static uint16 Grrefset   = 0;       /* Ref of image to get next */
+static uint16 Grreadrig  = 0;       /* Ref of the RIG the image in Grread was read from */
 static uint16 Grlastref  = 0;       /* Last ref read/written */
 static int    Grreqil[2] = {0, 0};  /* requested lut/image il */
 static struct {                     /* track refs of set vals written before */
@@ -712,7 +713,8 @@ DFGRIopen(const char *filename, int acc_mode)
             Ref.dims[LUT] = 0;
         if (Ref.nt > 0)
             Ref.nt = 0;
-        Grread = Grzrig; /* no rigs read yet */
+        Grread    = Grzrig; /* no rigs read yet */
+        Grreadrig = 0;
     }
 
     /* remember filename, so reopen may be used next time if same file */
@@ -766,7 +768,9 @@ DFGRIriginfo(int32 file_id)
             aid = Hstartread(file_id, gettag, getref);
         }
         else {
-            aid = Hstartread(file_id, gettag, Grread.data[IMAGE].ref);
+            /* continue after the RIG that was read last: its ref need not be the image's ref */
+            aid = Hstartread(file_id, gettag,
+                             (gettag == DFTAG_RIG && Grreadrig != 0) ? Grreadrig : Grread.data[IMAGE].ref);
             if ((aid != FAIL) && Hnextread(aid, gettag, getref, DF_CURRENT) == FAIL) {
                 Hendaccess(aid);
                 aid = FAIL;
@@ -801,9 +805,12 @@ DFGRIriginfo(int32 file_id)
     if (newtag == DFTAG_RIG) {
         if (DFGRgetrig(file_id, newref, &Grread) == FAIL)
             HGOTO_ERROR(DFE_INTERNAL, FAIL);
+        Grreadrig = newref;
     }
     else {
         uint16 uint16var;
+
+        Grreadrig = 0;
 
         Grread.data[IMAGE].ref = newref;
         Grread.data[IMAGE].tag = newtag;
